@@ -45,9 +45,9 @@ type VTimer struct {
 	Extends int
 }
 
-func (t *VTimer) Now() time.Time { return t.n.Now() }
+func (t *VTimer) Now() time.Time { return t.n.libNow() }
 func (t *VTimer) Reset(h uint32, v byte, d time.Duration) {
-	t.H, t.V, t.At, t.D, t.D0 = h, v, t.Now(), d, d
+	t.H, t.V, t.At, t.D, t.D0 = h, v, t.n.Now(), d, d
 	t.Pending, t.Set = true, true
 	t.Resets++
 	t.n.ev(EvTimerReset, nil, fmt.Sprintf("h=%d v=%d d=%s", h, v, d))
@@ -157,6 +157,8 @@ type Node struct {
 	D         *DBFT
 	Timer     *VTimer
 	WatchFlag bool // Config.WatchOnly()
+	ReadSkew  bool        // the clock may move between two reads of one call (see libNow)
+	Reads     []time.Time // clock readings served to the library during the current call
 	Crashed   bool
 	Faulty    bool // was restarted with amnesia in this run (counts as faulty)
 	Restarts  int
@@ -206,6 +208,26 @@ type Node struct {
 }
 
 func (n *Node) Now() time.Time { return n.W.Clock.Add(n.Offset) }
+
+// libNow is what the library reads through Timer.Now().  With ReadSkew the clock may move between two reads inside
+// one API call (an NTP step, a VM resume): forward a little or backward a lot.  Every reading served during the
+// current call is recorded in Reads.
+func (n *Node) libNow() time.Time {
+	t := n.Now()
+	if n.ReadSkew && n.Cur != nil {
+		switch n.W.R.Intn("readskew", 5) {
+		case 3:
+			t = t.Add(time.Duration(3*n.W.Cfg.TsIncrement) + 17)
+		case 4:
+			t = t.Add(-3 * n.W.Cfg.TimePerBlock)
+			n.W.Stat("clock_stepped_back_between_reads")
+		}
+	}
+	if n.Cur != nil {
+		n.Reads = append(n.Reads, t)
+	}
+	return t
+}
 
 func (n *Node) ev(k EvKind, p Payload, s string) {
 	if k != EvCall {
@@ -603,6 +625,7 @@ func (n *Node) do(c Call, f func()) {
 	c.PreResets = n.Timer.Resets
 	c.PreTimer = *n.Timer
 	n.Cur = &c
+	n.Reads = n.Reads[:0]
 	desc := ""
 	if n.W.KeepLog {
 		switch c.Kind {
@@ -629,6 +652,11 @@ func (n *Node) do(c Call, f func()) {
 				n.ev(EvPanic, nil, fmt.Sprint(r))
 				n.W.Fail("C11", fmt.Sprintf("node %d: panic in %s: %v\n%s", n.ID, c.Kind, r, trimStack(debug.Stack())), "panic:"+c.Kind.String())
 				n.Crashed = true // state is unknown; stop driving it
+				for _, m := range n.W.Mons {
+					if m.Panic != nil {
+						m.Panic(n, &c, fmt.Sprint(r))
+					}
+				}
 			}
 		}()
 		f()
